@@ -333,3 +333,26 @@ pub fn band_closed(t: Transport, band: u32) -> Outcome<bool> {
         })
     })
 }
+
+/// diff(version, source tree): (apath, sigil) in the order reported.
+pub fn diff(t: Transport, band: Option<u32>, src: &Path, include_unchanged: bool, excl: &[String]) -> Outcome<Vec<(String, char)>> {
+    let src = src.to_path_buf();
+    let excl = excl.to_vec();
+    run(move |monitor| {
+        block_on(async {
+            let archive = Archive::open(t).await.map_err(errstr)?;
+            let st = archive.open_stored_tree(sel(band)).await.map_err(errstr)?;
+            let lt = conserve::SourceTree::open(&src).map_err(errstr)?;
+            let options = conserve::DiffOptions {
+                exclude: exclude(&excl),
+                include_unchanged,
+            };
+            let mut d = conserve::diff(&st, &lt, options, monitor).await.map_err(errstr)?;
+            let mut v = Vec::new();
+            while let Some(c) = d.next().await {
+                v.push((c.apath.to_string(), c.change.sigil()));
+            }
+            Ok(v)
+        })
+    })
+}
